@@ -17,6 +17,7 @@ NA = {
  "C22": "protocol-level safety over all executions of a distributed protocol (message delay, loss, Byzantine voters): not expressible as per-function contracts; the per-call threshold/quorum facts are covered under C18/C19/C21 where claimed",
  "C29": "oracle is a reference implementation of cryptographic primitives (BLAKE2b, xxHash, Keccak, ed25519/ZIP-215, schnorrkel, secp256k1) behind third-party assembly/unsafe code: no contract within reach decides digest or verdict equality",
  "C36": "quantifies over crash points of a global write history across packages followed by the restart path over pebble: needs a whole-schema recoverability predicate and fault enumeration, not a per-function contract",
+ "C02": "not claimed: contracts for the in-memory trie walkers are drafted (/repo/pkg/trie/inmemory/verif_contracts.go, tag verif) but the check of the recursive walkers does not finish within 15 minutes on this machine, so nothing is claimed; a candidate repair of the key-divergence defects found while writing them is kept in /verif/pending/C02 and is not applied",
 }
 
 def main():
@@ -53,7 +54,7 @@ def main():
         "engines": [{"name": "vcheck", "path": "/verif/engine", "serves_properties": sorted(CHECKS),
                      "kind_free_text": "own verification-condition generator (symbolic execution / weakest preconditions over go/ssa of /repo's working tree, contracts from verif_contracts.go) discharging obligations with z3 4.8.12, z3 5.1.0, cvc5 1.0.3; counterexamples replayed with go test -overlay"}],
         "checks": checks,
-        "notes": "Contracts live in /repo/<pkg>/verif_contracts.go (tag verif). known_findings.jsonl lists fixed/known defects. Seeded property-breaking changes are under /verif/seeded.",
+        "notes": "Contracts live in /repo/<pkg>/verif_contracts.go (tag verif). known_findings.jsonl lists fixed/known defects. Seeded property-breaking changes are under /verif/seeded (tools/seedrun.sh applies one, runs the check, undoes it). Two commits in /repo titled 'round N: uncommitted hook changes (driver)' are automatic snapshots: round 0 is empty; round 1 carried an unguarded in-progress edit of pkg/trie/inmemory/in_memory.go which the following commit reverts (in_memory.go equals the pinned source). DESIGN.md section 0a is the status of what is built and claimed.",
         "not_applicable": na,
     }
     json.dump(m, open('/verif/MANIFEST.json', 'w'), indent=1)
